@@ -161,6 +161,48 @@ fn judge_frag(fc: &FCfg, order: (u64, u64), t: &mut Tally) {
     }
 }
 
+/// av1C bit positions: files whose sequence headers exercise every field of byte 1 and byte 2
+/// (profile, level, tier, bit depths, monochrome, both subsampling bits, sample position).
+fn judge_av1c_bits(order: (u64, u64), t: &mut Tally) {
+    use oracle::frames::{av1_seq_obu, obu, SeqHdr};
+    let base = SeqHdr::default();
+    let headers = vec![
+        SeqHdr { profile: 0, level: 8, tier: true, csp: 2, ..base.clone() }.normalised(),
+        SeqHdr { profile: 1, level: 31, tier: false, high_bitdepth: true, ..base.clone() }.normalised(),
+        SeqHdr { profile: 2, level: 5, high_bitdepth: true, ..base.clone() }.normalised(), // 4:2:2 10-bit
+        SeqHdr { profile: 2, level: 12, tier: true, high_bitdepth: true, twelve_bit: true, subx: true, suby: false, ..base.clone() }.normalised(),
+        SeqHdr { profile: 2, level: 13, high_bitdepth: true, twelve_bit: true, subx: false, suby: false, ..base.clone() }.normalised(),
+        SeqHdr { profile: 2, level: 9, high_bitdepth: true, twelve_bit: true, subx: true, suby: true, csp: 1, ..base.clone() }.normalised(),
+        SeqHdr { profile: 0, level: 0, color_desc: 1, ..base.clone() }.normalised(), // sRGB: 4:4:4
+    ];
+    for (k, h) in headers.iter().enumerate() {
+        for fast in [true, false] {
+            t.evaluations += 1;
+            let seq = av1_seq_obu(h);
+            let frame = [obu(2, false, true, &[]), seq.clone(), obu(6, false, true, &[0x10, 0x44])].concat();
+            let cfg = Cfg::basic(VCodec::Av1, None, fast);
+            let ex = run_finished(&cfg, &[Op::WV { pts: T(0.0), data: Bytes::new(frame), key: true }]);
+            if ex.panicked().is_some() || !ex.results.iter().all(|r| r.is_ok()) {
+                t.count("av1c_bit_cases_rejected", 1);
+                continue;
+            }
+            let m = parse_movie(&ex.bytes, "prog");
+            let e = h.expect();
+            let want1 = (e.profile << 5) | (e.level & 0x1f);
+            let want2 = (e.tier << 7) | ((e.high_bitdepth as u8) << 6) | ((e.twelve_bit as u8) << 5) | ((e.mono as u8) << 4) | ((e.subx as u8) << 3) | ((e.suby as u8) << 2) | (e.csp & 3);
+            if let Some(oracle::reader::CodecCfg::Av1 { seq_profile, seq_level_idx, seq_tier, high_bitdepth, twelve_bit, monochrome, subx, suby, csp, .. }) = m.video().and_then(|t| t.entry.as_ref()).map(|e| e.cfg.clone()) {
+                let got1 = (seq_profile << 5) | (seq_level_idx & 0x1f);
+                let got2 = (seq_tier << 7) | ((high_bitdepth as u8) << 6) | ((twelve_bit as u8) << 5) | ((monochrome as u8) << 4) | ((subx as u8) << 3) | ((suby as u8) << 2) | (csp & 3);
+                if (got1, got2) != (want1, want2) {
+                    t.violation("C19/prog/av1C/field-positions", (order.0, order.1 + k as u64), || format!("header {h:?}: av1C bytes 1-2 are {got1:#04x} {got2:#04x}, the binding prescribes {want1:#04x} {want2:#04x} (profile<<5|level, tier|hbd|12bit|mono|subx|suby|csp)"), || json!({"engine": "E2-c19-av1c", "header": format!("{h:?}")}));
+                }
+            } else {
+                t.violation("C19/prog/av1C/missing", (order.0, order.1 + k as u64), || format!("header {h:?}: no av1C record"), || json!({"engine": "E2-c19-av1c"}));
+            }
+        }
+    }
+}
+
 enum Item {
     Prog(Vec<(Cfg, usize)>),
     Frag(Vec<FCfg>),
@@ -226,12 +268,14 @@ pub fn check(ctx: &Ctx) -> i32 {
             }
         }
     });
+    let mut tally = tally;
+    judge_av1c_bits((9_000_000, 0), &mut tally);
     finish(
         ctx,
         &tally,
         Meta {
             level: "exploration",
-            rule: format!("{np} progressive files: the configuration space (4 codecs x {{none, 6 AAC profiles, Opus}} x fast start on/off x 5 metadata shapes) x dimensions {{320x240, 1920x1080, 4096x2160, 65535x65535}} x {{0, 1, 3}} frames{}, plus channels 1-8 x the standard sample rates below 65536 Hz for every audio kind; {nf} fragmented configurations (4 codecs x builder/FragmentConfig x dimensions x timescales x start DTS) with their init segment and two media segments. Every fixed-layout header box and configuration record is decoded field by field from ISO/IEC 14496-12/-14/-15 and the AV1 / VP9 / Opus bindings (size, version, flags, reserved bits) and the configured dimensions, timescales, enabled flags, identity matrices, handler types and track IDs are recovered. Distinct by the reader-reduced moov.", if ctx.thorough { "" } else { " (metadata variants thinned in the quick tier)" }),
+            rule: format!("{np} progressive files: the configuration space (4 codecs x {{none, 6 AAC profiles, Opus}} x fast start on/off x 5 metadata shapes) x dimensions {{320x240, 1920x1080, 4096x2160, 65535x65535}} x {{0, 1, 3}} frames{}, plus channels 1-8 x the standard sample rates below 65536 Hz for every audio kind; {nf} fragmented configurations (4 codecs x builder/FragmentConfig x dimensions x timescales x start DTS) with their init segment and two media segments. Every fixed-layout header box and configuration record is decoded field by field from ISO/IEC 14496-12/-14/-15 and the AV1 / VP9 / Opus bindings (size, version, flags, reserved bits) av1C bit positions are checked with seven sequence headers that set every field of its two packed bytes differently; and the configured dimensions, timescales, enabled flags, identity matrices, handler types and track IDs are recovered. Distinct by the reader-reduced moov.", if ctx.thorough { "" } else { " (metadata variants thinned in the quick tier)" }),
             bound: "configuration space as listed; 0/1/3 frames".into(),
             exhaustive: true,
             assumptions: vec!["the reader's field decoders are written from the specifications and are the trusted base".into(), "the optional High-profile extension of avcC is not demanded".into(), "for init segments the movie timescale is compared with the fragment timescale".into()],
